@@ -278,7 +278,7 @@ FAMILIES = {
         sharing=False,
         runs={"quick": [dict(mode="bfs", max_nodes=3, split=4)],
               "thorough": [dict(mode="bfs", max_nodes=4), dict(mode="sim", max_nodes=6, min_nodes=4, num=20000, depth=16, procs=12)]},
-        runs_light={"quick": [dict(mode="bfs", max_nodes=2), dict(mode="sim", max_nodes=4, min_nodes=3, num=8000, depth=14, procs=8)],
+        runs_light={"quick": [dict(mode="bfs", max_nodes=2), dict(mode="sim", max_nodes=4, min_nodes=3, num=3000, depth=14, procs=8)],
                     "thorough": [dict(mode="bfs", max_nodes=3), dict(mode="sim", max_nodes=6, min_nodes=4, num=20000, depth=16, procs=12)]},
         shards=[["opt"], ["tmpl"]], shard_defs={"opt": "SK_opt", "tmpl": "SK_tmpl"}),
 }
